@@ -216,3 +216,6 @@ pub open spec fn per_label_ok<TC: Configuration, S: Database, V>(storage: &Stora
             info_selected(storage, vrf, labels[k].0@, azks.latest_epoch, the_info(storage, vrf, labels[k].0@, azks.latest_epoch))
             && lookup_assembled::<TC, S, V>(storage, vrf, azks, the_info(storage, vrf, labels[k].0@, azks.latest_epoch), proofs[k])
 }
+
+// ---- audit entry point (C04 range validation at the directory level)
+pub uninterp spec fn append_only_of<S: Database>(azks: Azks, storage: &StorageManager<S>, start: u64, end: u64) -> Result<AppendOnlyProof, AkdError>;
